@@ -3839,8 +3839,9 @@ class TLSConnection(TLSRecordLayer):
         # negotiate the protocol version for the connection
         high_ver = None
         if ver_ext:
-            high_ver = getFirstMatching(settings.versions,
-                                        ver_ext.versions)
+            high_ver = getFirstMatching(
+                [i for i in settings.versions if i >= settings.minVersion],
+                ver_ext.versions)
             if not high_ver:
                 for result in self._sendError(
                         AlertDescription.protocol_version,
